@@ -27,20 +27,44 @@ CLAIMED = {
          "T+D", "DESIGN.md §5-C12",
          "Norm/NaN: every explored execution. Uniformity: exact finite-alphabet law of angle, r^2, z, longitude, r^3, z/r and two conditional projections against the uniform law.",
          "Uniformity decided up to one second-level lattice cell (2e-3 quick); a defect confined to a region smaller than a cell (needing two or three simultaneous special words) is outside what is explored."),
+ "C04": ("exploration", "exhaustive enumeration of the cross product of a special-value lattice per constructor argument against an oracle transcribed from the documented error variants",
+         "F", "DESIGN.md §5-C04",
+         "Every public float constructor (new, from_mean_cv, with_mode, with_mean, Dirichlet::new for lengths 0..3) x f32/f64 x the full cross product of a ~41-value lattice per argument (NaN, +-inf, +-0, subnormals, MIN_POSITIVE, MAX, thresholds +-1ulp); Binomial/Geometric/Hypergeometric over a 12-value u64 lattice. Judged: Err exactly when a documented condition holds, the returned variant's condition holds, no panic, accessors return the arguments.",
+         "Regions where the documentation is silent or contradicts itself are only judged for 'no panic' (list in the evidence assumptions). Constructor calls that do not return within the deadline are recorded and left to C05."),
+ "C07": ("fault_enumeration", "paired executions of the real samplers on identical scripted streams (base streams + every single-word deviation over the boundary lattice) with a relational oracle",
+         "D", "DESIGN.md §5-C07",
+         "For the 13 location/scale families x f32/f64 x the location/scale lattice: sample at canonical parameters and at (loc, scale) on the same stream; the results must satisfy the documented map up to its rounding (4 ulp; conditioning-aware for Triangular near its end points, InverseGaussian's cancelling root, LogNormal in log space) and consume the same number of words. from_zscore on a z lattice.",
+         "Non-finite samples are C03's matter and skipped here."),
+ "C08": ("model_checking", "exhaustive enumeration of all weight vectors up to a length over a per-type alphabet; for small integer sums every (column, threshold) execution of sample(), obtained by environment probing, with an exact counting identity",
+         "F", "DESIGN.md §5-C08",
+         "13 weight types x all vectors of length <= 5 (quick) over {0,1,2,3,MAX/len-1,MAX/len,MAX/len+1,-1 | float specials} plus structured vectors of length 31..300: constructor verdict per the documentation, no panic, weights() reconstructs the input (exactly for integers), zero-weight indices never returned, a clone samples identically, and for integer sums <= 128 the identity #{(column, threshold) : sample = i} = len * w_i over ALL pairs.",
+         "For integer sums above the budget sampling is checked for validity only (exactness then rests on weights()); float proportionality on a 256-point threshold lattice per column."),
+ "C09": ("model_checking", "explicit-state breadth-first search over all operation histories up to a depth on the real WeightedTreeIndex, with a reference model (plain weight list, i128 arithmetic) compared in every state and on every transition",
+         "H", "DESIGN.md §3.3, §5-C09",
+         "All histories over {new(ws) |ws|<=3, push(w), pop(), update(i,w)} up to depth 4 (quick) / 5, length <= 5 / 7, weights from {0,1,2,MAX/2+1,MAX-1,MAX,-1 | floats incl. NaN, -0.0, 1e30} for u8,i8,u32,i64,u64,f32,f64. In every state: len/is_empty/get/is_valid agree with the list, integers: tree == new(list); on every transition: error exactly when expected (InvalidWeight, Overflow), error leaves the structure unchanged, pop returns the last weight, no panic.",
+         "Float comparisons are relative to the largest total the tree has held (absorption of small weights next to 1e30 is rounding, not a defect)."),
+ "C10": ("model_checking", "in every distinct state reached by the C09 breadth-first search: exhaustive target enumeration (counting identity over total*64 equispaced words) for integer totals <= 4096, boundary-word lattice and 4096-point lattice otherwise",
+         "H", "DESIGN.md §5-C10",
+         "Sampling is exercised in states reached through update histories, not only fresh trees. Integer totals <= 4096: #{words : sample = i} = 64 w_i exactly. Other states: index validity, non-zero weight, no panic on the boundary lattice (incl. the largest target), proportionality within 2.5/4096. Invalid states: try_sample = InsufficientNonZero.",
+         "rand's range reduction is the trusted environment; float trees polluted by a much larger former total are not judged for proportionality."),
+ "C13": ("model_checking", "exhaustive enumeration of all 2^24 values of the first f32 uniform draw through the real sample(); exact push-forward law vs documented CDF (Kolmogorov distance)",
+         "T", "DESIGN.md §5-C13",
+         "Cauchy, Pareto, Weibull, Gumbel, Frechet, Triangular (f32) x grid of E: every one of the 2^24 first-word patterns is executed; each execution must consume exactly one word (else the case is recorded not applicable); the exact induced law must be within 2^-24 (1.5 + 8 sup|x f(x)|) of the documented CDF and every output in the support.",
+         "Complete for the stated space. The f32 conversions use the top 24 bits of a next_u32 served from the top of the script word."),
+ "C14": ("model_checking", "explicit-state exploration of all call histories up to a depth over {A, clone, equal rebuild, sibling, other family} x two cursors on one word sequence, executed on the real objects with a differential oracle between histories",
+         "H", "DESIGN.md §5-C14",
+         "For a spread of cases covering every family and representation variant (all cases in the thorough tier): all 10^4 (quick) call sequences; a table keyed by (parameter class, cursor before) must receive the same (result bits, cursor after) from every history; Debug/== unchanged after sampling; sample_iter agrees with repeated sample.",
+         "Single-threaded histories (the crate has no synchronisation to schedule)."),
+ "C15": ("exploration", "enumeration of every serde-enabled type x representation variant: JSON and value-tree round trips, equality, and identical sampling on base streams and all single-word deviations at the first requests",
+         "F+D", "DESIGN.md §5-C15",
+         "Compile-time list of the types implementing Serialize+Deserialize under feature serde (Zipf, Zeta, Dirichlet do not), parameter sets for every internal enum variant (Gamma Large/One/Small, Beta BB/BC x switched, Binomial Binv/Btpe/Poisson/Constant x flipped, Poisson Knuth/Rejection, ...), weighted indices of several lengths incl. float trees after update histories.",
+         "Values holding a non-finite float are not covered (JSON cannot carry infinities)."),
  "C05": ("fault_enumeration", "deviation-bounded exhaustive enumeration of RNG answers with a per-call word cap and wall-clock watchdog on the real samplers",
          "D", "DESIGN.md §3.2, §5-C05",
          "Same enumeration as C03; the oracle is the number of RNG words requested by one call (< 1e5) and a 2 s per-call watchdog (constructors included). Catches parameter/word combinations that loop forever or whose acceptance rate collapses.",
          "A hung thread cannot be cancelled: it is reported and abandoned, the process exits at the end. Mean consumption per family is reported from base streams here; the exact expectation is computed by engine T when that engine serves this property."),
 }
 PLANNED = {
- "C04": "check not yet built in this commit (engine F, constructor lattice)",
- "C07": "check not yet built in this commit (engine D, paired executions)",
- "C08": "check not yet built in this commit (engine F/T alias tables)",
- "C09": "check not yet built in this commit (engine H, history BFS)",
- "C10": "check not yet built in this commit (engine H + target enumeration)",
- "C13": "check not yet built in this commit (2^24 exhaustive push-forward)",
- "C14": "check not yet built in this commit (history exploration)",
- "C15": "check not yet built in this commit (serde round trip enumeration)",
 }
 def main():
     hooks = subprocess.run(["git","-C","/repo","log","--format=%h %s"],capture_output=True,text=True).stdout.splitlines()
